@@ -33,8 +33,9 @@ class Host:
         # rotation: the guest holds G1, the host has dropped its latch and will hand out G2
         # unreadable: the host regards G1 as attested but the local file is damaged (premise of the scenario, not caused by the agent)
         # lostreply: like fresh, but the reply to the first attestation is lost after the host latched the key
-        self.latched = {"fresh": None, "restart": "G1", "rotation": None, "unreadable": "G1", "lostreply": None}[scenario]
-        self.next_key = {"fresh": "G1", "restart": "G2", "rotation": "G2", "unreadable": "G1", "lostreply": "G1"}[scenario]
+        # nostore: like fresh, but the key store cannot take the key (its temp file cannot be created): nothing may be latched
+        self.latched = {"fresh": None, "restart": "G1", "rotation": None, "unreadable": "G1", "lostreply": None, "nostore": None}[scenario]
+        self.next_key = {"fresh": "G1", "restart": "G2", "rotation": "G2", "unreadable": "G1", "lostreply": "G1", "nostore": "G1"}[scenario]
         self.lose_next_reply = scenario == "lostreply"
 
     def plan(self):
@@ -57,6 +58,8 @@ def prepare_dir(scenario, key_dir):
         open(os.path.join(key_dir, "G1.key"), "w").write(key_doc("G1"))
     if scenario == "unreadable":
         open(os.path.join(key_dir, "G1.key"), "w").write(DAMAGED)
+    if scenario == "nostore":
+        os.makedirs(os.path.join(key_dir, "G1.tmp"), exist_ok=True)
 
 
 DAMAGED = '{"authorizationScheme": "Azure-HMAC-SHA2'
@@ -144,6 +147,18 @@ def run_once(chk, binp, scenario, n, rng):
         check_dir(chk, key_dir, host, desc)
         # ---- restart on the same directory: must converge, and without a second acquire when the host had latched
         latched_before = host.latched
+        if scenario == "nostore":
+            shutil.rmtree(os.path.join(key_dir, "G1.tmp"), ignore_errors=True)       # the obstacle is gone when the agent comes back
+        if n is None or n % 2 == 1:
+            # the wall clock was set back while the agent was down: the key files are "from the future" (recoverable all the same)
+            import time as _t
+            for f in os.listdir(key_dir):
+                try:
+                    os.utime(os.path.join(key_dir, f), (_t.time() + 3600, _t.time() + 3600))
+                except OSError:
+                    pass
+            desc = dict(desc, clock="set back by an hour before the restart")
+            chk.count("restarts_with_key_files_dated_in_the_future")
         kp2 = keeper.Keeper(binp, sd=sd, key_dir=key_dir, interval_ms=15)
         try:
             # the restarted agent has run its start-up section and waits for its first status answer: nothing it did on the way may
@@ -196,10 +211,10 @@ def run(chk):
     if not ok:
         chk.broken.append({"kind": "harness", "name": "agent harness build", "why": out[-1500:]})
         return
-    scenarios = ["fresh"] if chk.tier == "quick" else ["fresh", "restart", "rotation", "unreadable", "lostreply"]
+    scenarios = ["fresh"] if chk.tier == "quick" else ["fresh", "restart", "rotation", "unreadable", "lostreply", "nostore"]
     if chk.tier == "quick":
         # the other scenarios once, without a kill, plus a few kill points each
-        for sc in ("restart", "rotation", "unreadable", "lostreply"):
+        for sc in ("restart", "rotation", "unreadable", "lostreply", "nostore"):
             run_once(chk, binp, sc, None, rng)
             for n in (rng.rand_range(1, 12), rng.rand_range(13, 40)):
                 run_once(chk, binp, sc, n, rng)
